@@ -1,6 +1,7 @@
 package harness
 
 import (
+	"encoding/base64"
 	"fmt"
 	"os"
 	"sort"
@@ -214,6 +215,26 @@ func runC13Pop(tb report.TB, rep *report.Reporter, c c13Pop) {
 		if err := b.Commit(repo); err != nil {
 			tb.Fatalf("harness: %v", err)
 		}
+	}
+	if c.Seed%2 == 0 {
+		// one bug written by another implementation of the documented format: indented JSON, other key order. Its
+		// ids are the hashes of the bytes that are stored.
+		n1 := base64.StdEncoding.EncodeToString(NonceFor(c.Seed, 9_200_000))
+		n2 := base64.StdEncoding.EncodeToString(NonceFor(c.Seed, 9_200_001))
+		rawCreate := fmt.Sprintf("{\n    \"title\": \"written elsewhere\",\n    \"message\": \"first message\",\n    \"nonce\": %q,\n    \"timestamp\": 1500,\n    \"type\": 1\n  }", n1)
+		rawComment := fmt.Sprintf("{\n    \"message\": \"a comment\",\n    \"nonce\": %q,\n    \"timestamp\": 1501,\n    \"type\": 3\n  }", n2)
+		blob := fmt.Sprintf("{\n  \"author\": {\"id\": %q},\n  \"ops\": [\n  %s,\n  %s\n  ]\n}\n", aid, rawCreate, rawComment)
+		fid, cid := ondisk.Sha([]byte(rawCreate)), ondisk.Sha([]byte(rawComment))
+		h, err := ondisk.WritePack(repo, ondisk.PackSpec{OpsBlob: []byte(blob), Version: "4", EditClock: "900", CreateClock: "900"})
+		if err != nil {
+			tb.Fatalf("harness: %v", err)
+		}
+		if err := repo.UpdateRef("refs/bugs/"+fid, repository.Hash(h)); err != nil {
+			tb.Fatalf("harness: %v", err)
+		}
+		bugIds = append(bugIds, fid)
+		comments = append(comments, comment{fid, fid, refCombine(fid, fid)}, comment{fid, cid, refCombine(fid, cid)})
+		rep.Class("a-bug-in-foreign-json-formatting", 1)
 	}
 	if c.PackAt > 0 && c.PackAt >= len(c.Bugs) {
 		packRefs()
